@@ -29,8 +29,9 @@
    try{..}catch{..}, if(local.a){..}.  Same order of updates: counts saved at loop entry,
    continue table processed after the body, break table after the loop; the switch records its own
    exit jump in the break table; EmitSwitch and EmitCatch first run a NESTED emitter with fresh
-   state over the body (switch: depth budget switch_sub_depth, canBreak = true; catch: unbounded depth,
-   no flags) whose only surviving effect is an exception; every EmitValue call consumes one unit
+   tables and counts over the body (depth budget and canBreak/canContinue as translated into
+   Generated.v: constant or inherited from the enclosing emitter) whose only surviving effect is
+   an exception; every EmitValue call consumes one unit
    of the depth budget while it runs.  Which counter guards/indexes which table, the limits
    and the nested depth come from Generated.v (translated from the source on every run).
    Abstracted: a recorded code position is the ordinal (nloc) of the jump that records it;
@@ -193,6 +194,9 @@ Record est := mkE {
 Definition fresh (cb cc : bool) (d : N) : est :=
   mkE 0 0 (aempty None) (aempty None) cb cc d 0 0 (aempty None) (aempty 0) [].
 
+Definition flag_of (f : flagsrc) (cur : bool) : bool :=
+  match f with FTrue => true | FFalse => false | FInherit => cur end.
+
 Definition cnt (w : which) (s : est) : N := match w with WB => bcnt s | WC => ccnt s end.
 Definition tab (w : which) (s : est) : arr (option N) := match w with WB => btab s | WC => ctab s end.
 Definition lim (w : which) : N := match w with WB => break_limit | WC => continue_limit end.
@@ -303,8 +307,9 @@ Fixpoint emit_stmt (x : stmt) (s : est) {struct x} : res est :=
     | SSwitch b =>
         let id := ncons s1 in
         bind (leaf (set_ncons (id + 1) s1)) (fun s2 =>         (* EmitValue(switch expr) *)
-        (* nested counting emitter: fresh, canBreak, depth switch_sub_depth; EmitRoot(body) *)
-        bind (emit_cases b (fresh true false switch_sub_depth)) (fun _ =>
+        (* nested counting emitter: fresh tables, flags/depth of Generated.v; EmitRoot(body) *)
+        bind (emit_cases b (fresh (flag_of switch_sub_canbreak (canB s2)) (flag_of switch_sub_cancontinue (canC s2))
+                                  switch_sub_depth)) (fun _ =>
         let ob := canB s2 in let bc := bcnt s2 in
         bind (emit_break (set_flags true (canC s2) s2)) (fun s3 =>   (* the switch's own exit jump *)
         bind (emit_cases b s3) (fun s4 =>
@@ -312,8 +317,9 @@ Fixpoint emit_stmt (x : stmt) (s : est) {struct x} : res est :=
         Ok (set_flags ob (canC s5) s5)))))
     | STry t c =>
         bind (emit_block t s1) (fun s2 =>
-        (* EmitCatch: nested counting emitter, fresh, no flags, unbounded depth; EmitRoot(catch body) *)
-        bind (emit_block c (fresh false false max_depth)) (fun _ =>
+        (* EmitCatch: nested counting emitter, fresh tables, flags of Generated.v; EmitRoot(catch body) *)
+        bind (emit_block c (fresh (flag_of catch_sub_canbreak (canB s2)) (flag_of catch_sub_cancontinue (canC s2))
+                                  max_depth)) (fun _ =>
         emit_block c s2))
     | SIf b =>
         bind (leaf s1) (fun s2 => emit_block b s2)             (* EmitValue(cond); EmitIfJump -> EmitValue(body) *)
